@@ -5,14 +5,17 @@ import json
 from vt import core
 
 SHAPES = ["plain", "slots", "frozen", "own", "getattr"]
-CLASS_SETS = [["Item", "Sub"], ["Model", "Item", "Sub", "Ref"], ["Item"], ["Sub", "Ref"], ["Model", "Item", "Sub"], ["Item", "Sub", "Ref"]]
+CLASS_SETS = [["Item", "Sub"], ["Model", "Item", "Sub", "Ref"], ["Item"], ["Sub", "Ref"], ["Model", "Item", "Sub"], ["Item", "Sub", "Ref"], []]
+PROVIDERS = [("importuri", 5), ("globalrepo", 3), ("fqn_globalrepo", 1)]
 RES_FAIL = ["unknownx", "provboom", "postp"]
 
 
 # ---------------------------------------------------------------- scenario generator
 class Gen:
-    def __init__(self, r, max_loads=3):
+    def __init__(self, r, max_loads=3, provider="importuri"):
         self.r = r
+        self.provider = provider
+        self.libs = []
         self.n = 0
         self.loads = {}
         self.behav = {}
@@ -54,10 +57,10 @@ class Gen:
             a = self.action(depth, 5 if fail_bias else 0)
             if a is not None:
                 self.behav["proc:" + it["name"]] = a
-            if fail_bias and r.chance(0.03):
+            if fail_bias and r.chance(0.05):
                 self.behav["mproc:" + it["name"]] = "boom"
             f["items"].append(it)
-        if idepth < 2:
+        if idepth < 2 and self.provider == "importuri":
             for _ in range(r.weighted([(0, 5), (1, 4), (2, 2)]) if budget[0] > 0 else 0):
                 budget[0] -= 1
                 if len(names) > 1 and r.chance(0.15):
@@ -72,6 +75,7 @@ class Gen:
         self.loads[str(lid)] = None
         names = []
         main = self.file(lid, depth, 0, [3], names, fail_bias)
+        libitems = [it["name"] for lib in self.libs for it in lib["items"]]
         # references: to items of the files of this load (resolvable from every file through imports
         # only when imported; keep them local or to directly imported files), plus failing ones
         for f in names:
@@ -79,17 +83,35 @@ class Gen:
             for imp in f["imports"]:
                 if not imp.get("ref"):
                     vis += [it["name"] for it in imp["items"]]
+            vis += libitems      # models registered with a repository provider are visible everywhere
             for _ in range(r.below(3)):
                 if vis:
                     f["refs"].append(r.choice(vis))
             if fail_bias and r.chance(0.12):
                 f["refs"].insert(r.below(len(f["refs"]) + 1), r.choice(RES_FAIL))
-        self.loads[str(lid)] = {"main": main}
+        # how the main model reaches textX: from its file, from a string with file_name=, or from a
+        # bare string (no file name: registered under a generated key). A bare string cannot import.
+        hows = [("file", 5), ("str_named", 2)]
+        if not main["imports"]:
+            hows.append(("str", 4 if self.provider != "importuri" else 2))
+        self.loads[str(lid)] = {"main": main, "how": r.weighted(hows)}
         return lid
+
+    def make_libs(self, fail_bias):
+        """files registered with a repository provider: loaded along with every main model"""
+        r = self.r
+        for _ in range(r.weighted([(0, 1), (1, 4), (2, 3)])):
+            lib = self.file(99, 2, 2, [0], [], fail_bias and r.chance(0.3))
+            lib["name"] = "LIB_" + lib["name"]
+            lib["refs"] = [r.choice([it["name"] for it in lib["items"]]) for _ in range(r.below(2))]
+            self.libs.append(lib)
 
 
 def gen_scenario(r, i):
-    g = Gen(r)
+    provider = r.weighted(PROVIDERS)
+    g = Gen(r, provider=provider)
+    if provider != "importuri":
+        g.make_libs(r.chance(0.4))
     tops = []
     ntops = r.weighted([(1, 6), (2, 3), (3, 1)])
     for k in range(ntops):
@@ -100,9 +122,9 @@ def gen_scenario(r, i):
         # processor fail in get_location; not a case of this property
         shape = r.choice(["plain", "own", "getattr"])
     sc = {"classes": classes, "shape": shape, "global": False, "loads": g.loads, "behav": g.behav,
-          "tops": tops, "gc_check": True, "next_check": r.chance(0.5)}
+          "tops": tops, "gc_check": True, "next_check": r.chance(0.5), "provider": provider, "libs": g.libs}
     # a metamodel-global repository only without callback-started loads (they would share it)
-    if not any(isinstance(a, list) for a in g.behav.values()) and r.chance(0.35):
+    if not any(isinstance(a, list) for a in g.behav.values()) and r.chance(0.35 if provider == "importuri" else 0.6):
         sc["global"] = True
     return sc
 
@@ -119,6 +141,9 @@ class Compiler:
         self.user = set(sc["classes"])
         self.loads_info = []      # per started load (context number order): dict(ok, objs)
         self.nobj = 0
+        self.libs = sc.get("libs", []) if sc.get("provider", "importuri") != "importuri" else []
+        self.repo_provider = sc.get("provider", "importuri") != "importuri"
+        self.cached = set()       # files that stay in the metamodel-global repository (successful loads)
 
     def op(self, o):
         self.ops.append(o)
@@ -148,7 +173,9 @@ class Compiler:
     def build_file(self, f, main, info, loaded, files):
         """returns False if the load failed (the Fail/Begin-false operation has been emitted)"""
         b = self.sc["behav"]
-        glob = bool(self.sc.get("global"))
+        # a main model given as a bare string enters the metamodel-global repository only through a
+        # repository provider with registered files (update_model_in_repo_based_on_filename)
+        glob = bool(self.sc.get("global")) and not (self.cur_how == "str" and not (self.repo_provider and self.libs))
         self.op("Begin %s %s %s" % (core.coq_bool(main), core.coq_bool(glob), core.coq_bool(f["syntax_ok"])))
         if not f["syntax_ok"]:
             return False
@@ -169,9 +196,13 @@ class Compiler:
             ur = self.alloc(info, "Ref")
             self.complete(ur)
         self.complete(um)
-        for imp in f["imports"]:
-            if imp.get("ref") or imp["name"] in loaded:
-                continue        # already loaded by this load (cached in the shared repository)
+        # models loaded by load_models of this model: its imports (import provider) or every
+        # registered file not yet in the shared repository (repository providers; the first one
+        # loads the next ones from its own load_models, which gives the same order)
+        todo = f["imports"] if not self.repo_provider else self.libs
+        for imp in todo:
+            if imp.get("ref") or imp["name"] in loaded or imp["name"] in self.cached:
+                continue        # already loaded by this load or cached in the shared repository
             if not self.build_file(imp, False, info, loaded, files):
                 return False
         if not main and any(b.get("mproc:" + it["name"]) == "boom" for it in f["items"]):
@@ -182,10 +213,13 @@ class Compiler:
     def load(self, lid):
         load = self.sc["loads"][str(lid)]
         b = self.sc["behav"]
-        info = {"load": lid, "objs": [], "ok": False, "mproc": False}
+        info = {"load": lid, "objs": [], "ok": False, "mproc": False, "how": load.get("how", "file")}
         self.loads_info.append(info)
         loaded, files = {}, []
+        saved_how = getattr(self, "cur_how", None)
+        self.cur_how = load.get("how", "file")
         ok = self.build_file(load["main"], True, info, loaded, files)
+        self.cur_how = saved_how
         if not ok:
             return False
         if any(x in RES_FAIL for f in files for x in f["refs"]):
@@ -219,11 +253,17 @@ class Compiler:
                     return False
         self.op("Finish")
         info["ok"] = True
+        info["files"] = [f["name"] for f in files]
+        info["registered"] = bool(self.sc.get("global")) and not (load.get("how", "file") == "str" and not (self.repo_provider and self.libs))
         # model processors run after get_model_from_str has returned (imported models first: their
         # internal_model_from_file returns first), the first failing one raises
         if any(b.get("mproc:" + it["name"]) == "boom" for it in load["main"]["items"]):
+            # internal_model_from_file / model_from_str: the models loaded by this load leave the
+            # repositories again (this happens after get_model_from_str, outside the Coq machine)
             info["mproc"] = True
             return False
+        if self.sc.get("global"):
+            self.cached.update(f["name"] for f in files)
         return True
 
     def init_order(self, f):
@@ -292,7 +332,7 @@ def coq_expr(sc, ops):
     return "go (d_of %s) %s" % (SHAPE_SLOTS[sc["shape"]], core.coq_list(ops))
 
 
-def parse_model(text):
+def parse_model(text, no_classes=False):
     """-> dict(count, store, dict, saved, nctx, repo, events) with ids renumbered: contexts and
     objects by first appearance, like the runner numbers them"""
     count, store, dct, saved, nctx, repo, log = text.split("|")
@@ -304,7 +344,7 @@ def parse_model(text):
     for w in entries:
         k = w[0]
         c = cmap[int(w[1])]
-        cnt, st = int(w[-2]), int(w[-1])
+        cnt, st = (0, 0) if no_classes else (int(w[-2]), int(w[-1]))
         if k == "A":
             m = mmap.setdefault(w[2], len(mmap))
             o = omap.setdefault(w[3], len(omap))
@@ -315,6 +355,8 @@ def parse_model(text):
         elif k in ("P", "F", "E"):
             events.append([k, c, cnt, st])
         # S and R are not observable from outside
+    if no_classes:
+        count = store = "0"
     return {"count": int(count), "store": int(store), "dict": dct, "saved": saved, "nctx": int(nctx),
             "repo": [mmap.get(x, x) for x in repo.split(",") if x], "events": events, "parents": parents}
 
@@ -382,16 +424,17 @@ def oracle_c14(sc, obs, tops_ok, loads_info):
 
 def oracle_c15(sc, obs):
     bad = []
+    failed_ctx = set(obs.get("raised_ctx", [])) | {e[1] for e in obs["events"] if e[0] == "F"}
     for t in obs["tops"]:
         if t["outcome"].startswith("raised") and t["outcome"] != "raised:MprocBoom":
             left = [d for d in t["dict_diff"]]
             if left:
                 bad.append(("after the failed load %s: %s" % (t["load"], "; ".join(left[:4])), ["left_on_classes"]))
-            if t.get("repo"):
-                files = all_files_of_load(sc, t["load"])
-                kept = [f for f in t["repo"] if f in files]
-                if kept:
-                    bad.append(("after the failed load %s its models %s stay in the metamodel repository" % (t["load"], kept), ["left_in_repo"]))
+        # no repository reachable from the metamodel (any key: file name, anonymousN, builtin_model_N)
+        # holds a model built by a load that failed
+        kept = [[w, k] for w, k, cid in t.get("repo", []) if cid in failed_ctx]
+        if kept:
+            bad.append(("after load %s (%s) models built by failed loads stay registered: %s" % (t["load"], t["outcome"], kept[:4]), ["left_in_repo"]))
     if obs.get("alive"):
         bad.append(("after the failed load(s) %d user object(s) stay reachable (first: #%d, held by %s)" % (
             len(obs["alive"]), obs["alive"][0], obs.get("holders")), ["reachable"]))
@@ -441,6 +484,30 @@ def compare(sc, obs, model, tops_ok, loads_info):
         for rec in recs:
             if model["parents"].get(int(n)) != rec["uparent"]:
                 return "object %s: enclosing user object %r in the implementation, %r in the model" % (n, rec["uparent"], model["parents"].get(int(n)))
+    if sc.get("global") and obs["tops"]:
+        # the metamodel-global repository after the last load: the models of the successful loads.
+        # (Coq machine s_repo) == (compiler's expectation) == (implementation), the last modulo the
+        # generated keys: textX registers every model without file name as 'anonymous0'
+        # (ModelRepository.has_model applies abspath to the generated key, so the numbering never
+        # advances: a later string-loaded model replaces the earlier one, and when that later load
+        # fails its cleanup removes the key, so 0..n generated keys may be left)
+        keep = [i for i in loads_info if i["ok"] and not i.get("mproc") and i.get("registered")]
+        want_files, n_anon = set(), 0
+        for i in keep:
+            names = list(i["files"])
+            if i.get("how") == "str":
+                names = names[1:]
+                n_anon += 1
+            want_files.update(names)
+        n_expected = sum(len(i["files"]) for i in keep)
+        n_model = len(model["repo"]) - sum(len(i["files"]) for i in loads_info if i.get("mproc") and i.get("registered"))
+        if n_model != n_expected:
+            return "metamodel repository: %d models in the Coq machine, %d expected from the scenario" % (n_model, n_expected)
+        keys = [k for w, k, c in obs["tops"][-1].get("repo", []) if w == "all_models"]
+        files = {k for k in keys if not k.startswith("anonymous")}
+        anon = [k for k in keys if k.startswith("anonymous")]
+        if files != want_files or len(anon) > n_anon:
+            return "metamodel repository: implementation %r, expected files %r and at most %d generated key(s)" % (keys, sorted(want_files), n_anon)
     if model["nctx"] != 0:
         return "the model still has %d running load(s) at the end of the scenario" % model["nctx"]
     return None
@@ -460,7 +527,7 @@ def run_cases(chk, cases, tag):
     res = []
     for sc, (ops, tops_ok, info), mv in zip(cases, comp, vals):
         o = obs[id(sc)]
-        model = parse_model(mv) if mv is not None else None
+        model = parse_model(mv, no_classes=not sc["classes"]) if mv is not None else None
         dis = None
         if model is not None:
             dis = compare(sc, o, model, tops_ok, info)
@@ -471,7 +538,8 @@ def run_cases(chk, cases, tag):
 
 
 def describe(sc):
-    return {"classes": sc["classes"], "shape": sc["shape"], "global": sc["global"], "tops": sc["tops"], "loads": sc["loads"], "behav": sc["behav"]}
+    return {"classes": sc["classes"], "shape": sc["shape"], "global": sc["global"], "tops": sc["tops"], "loads": sc["loads"], "behav": sc["behav"],
+            "provider": sc.get("provider", "importuri"), "libs": sc.get("libs", [])}
 
 
 def scenario_stats(chk, sc, obs, tops_ok, info, ops):
@@ -482,6 +550,9 @@ def scenario_stats(chk, sc, obs, tops_ok, info, ops):
     chk.stat("loads started:%d" % len(info))
     if sc["global"]:
         chk.stat("global repository")
+    chk.stat("provider:" + sc.get("provider", "importuri"))
+    for l in sc["loads"].values():
+        chk.stat("main from:" + l.get("how", "file"))
     nfiles = sum(len(all_files_of_load(sc, l)) for l in sc["loads"])
     chk.stat("multi-file" if nfiles > len(sc["loads"]) else "single-file")
     for o in ops:
